@@ -502,3 +502,11 @@ mod tests {
         }
     }
 }
+
+#[cfg(cicada_verif)]
+pub mod verif_export {
+    //! wrappers over private functions of this module, for the verification harness
+    pub fn expand_args(line: &str, args: &[String]) -> String { super::expand_args(line, args) }
+    pub fn expand_args_for_single_token(token: &str, args: &[String]) -> String { super::expand_args_for_single_token(token, args) }
+    pub fn is_args_in_token(token: &str) -> bool { super::is_args_in_token(token) }
+}
